@@ -80,8 +80,13 @@ int fp2_upk(fp2_t c, const fp2_t a) {
 				if (fp_get_bit(t, 0) != b) {
 					fp_neg(t, t);
 				}
-				fp_copy(c[0], a[0]);
-				fp_copy(c[1], t);
+				if (fp_get_bit(t, 0) != b) {
+					/* The root is zero, which is not odd. */
+					result = 0;
+				} else {
+					fp_copy(c[0], a[0]);
+					fp_copy(c[1], t);
+				}
 			}
 		} RLC_CATCH_ANY {
 			RLC_THROW(ERR_CAUGHT);
